@@ -34,6 +34,7 @@ type Prog struct {
 	// and methods) of the repository packages, deterministically ordered.
 	Funcs []*ssa.Function
 
+	canon map[*types.Var]string // renamed anchored fields -> the name they are anchored under
 	// VocabNotes records anchored names that had to be resolved by type/position (renamed fields).
 	VocabNotes []string
 
@@ -276,8 +277,24 @@ func (p *Prog) fieldFallback(pkg, typ, field string) *types.Var {
 	if _, taken := vocabTable[pkg+"."+typ+"."+f.Name()]; taken {
 		return nil
 	}
+	if p.canon == nil {
+		p.canon = map[*types.Var]string{}
+	}
+	if _, seen := p.canon[f]; seen {
+		return f
+	}
+	p.canon[f] = field
 	p.VocabNotes = append(p.VocabNotes, fmt.Sprintf("field %s.%s.%s not found by name; resolved to %s (type %s, position %d of %d among fields of that type)", pkg, typ, field, f.Name(), rec.typ, rec.ord+1, rec.count))
 	return f
+}
+
+// CanonName is the name a field is anchored under (its current name unless it was renamed); used in the keys of
+// listed findings so that a rename does not make a listed finding look new.
+func (p *Prog) CanonName(f *types.Var) string {
+	if n, ok := p.canon[f]; ok {
+		return n
+	}
+	return f.Name()
 }
 
 type vocabRec struct {
